@@ -1938,10 +1938,38 @@ class Interp:
         rng = lambda k: z3.And(k >= 0, k < tz(m))
         ctx.oblige('bounds', 'fancy store index within bounds',
                    z3.Implies(rng(k1), z3.And(pos(k1) >= 0, pos(k1) < tz(n))))
+        if not isinstance(v, SArr):
+            # a[idx] = scalar: duplicates in idx are harmless.  The written region {j : exists k. pos(k) == j} is described
+            # with a choice function w (w(j) is SOME preimage of j whenever j has one): no injectivity needed.
+            w = ctx.fresh_fun('wit', IntS, IntS)
+            fact = lambda t: z3.Implies(rng(t), z3.And(rng(w(pos(t))), pos(w(pos(t))) == pos(t)))
+            ctx.add_universal(fact)
+            if getattr(idx, 'inv', None) is not None and idx.ndim == 1:
+                # idx is itself a view (e.g. indices[a:b]): the same fact instantiated at the view index of every
+                # STORE index term in play (a clause usually quantifies over positions of the underlying array)
+                def fact_at_store(s_, _inv=idx.inv):
+                    c_, vi = _inv(s_)
+                    h = fact(tz(vi[0]))
+                    return h if (isinstance(c_, bool) and c_) else z3.Implies(b2z(c_), h)
+                ctx.add_universal(fact_at_store)
+
+            def region_c(j):
+                j = tz(j)
+                ctx.add_iterm(w(j))
+                return z3.And(rng(w(j)), pos(w(j)) == j)
+            npm.arr_write(ctx, a, region_c, lambda j: v)
+            return
         ctx.oblige('pre@callee', 'fancy store index duplicate-free',
                    z3.Implies(z3.And(rng(k1), rng(k2), k1 != k2), pos(k1) != pos(k2)))
         inv = ctx.fresh_fun('inv', IntS, IntS)
         ctx.add_universal(lambda t: z3.Implies(rng(t), inv(pos(t)) == t))
+        if getattr(idx, 'inv', None) is not None and idx.ndim == 1:
+            def inv_at_store(s_, _inv=idx.inv):
+                c_, vi = _inv(s_)
+                t_ = tz(vi[0])
+                h = z3.Implies(rng(t_), inv(pos(t_)) == t_)
+                return h if (isinstance(c_, bool) and c_) else z3.Implies(b2z(c_), h)
+            ctx.add_universal(inv_at_store)
         if isinstance(v, SArr):
             npm.shape_eq(ctx, idx.shape, v.shape, 'fancy store shape')
             vg = self.frozen_getter(v)
